@@ -52,6 +52,19 @@ macro_rules! out_routes {
 			same!("Buf::Borrow<raw>", { let b: &$raw = std::borrow::Borrow::borrow(&owned); b });
 			same!("Buf::Borrow<T>", { let b: &$T = std::borrow::Borrow::borrow(&owned); b.as_bytes() });
 			same!("Buf::Deref", { let b: &$T = &*owned; b.as_bytes() });
+			// clone_from, both directions, with another valid value of the type (an equivalent spelling or a prefix)
+			{
+				let other: Option<String> = variant.filter(|w| *w != t && <$T>::new($to_raw(w)).is_ok()).map(|w| w.to_string()).or_else(|| crate::gen::valid_prefix_cuts(t, 2, |p| <$T>::new($to_raw(p)).is_ok()).last().map(|&k| t[..k].to_string()));
+				if let Some(w) = other {
+					let wb: $TBuf = <$T>::new($to_raw(w.as_str())).unwrap().to_owned();
+					let mut x = wb.clone();
+					x.clone_from(&owned);
+					same!("clone_from", x.as_bytes());
+					let mut y = owned.clone();
+					y.clone_from(&wb);
+					ensure!(y.as_bytes() == w.as_bytes(), "out:clone_from", "{n}: {:?} after clone_from({:?}) has text {:?}", t, w, String::from_utf8_lossy(y.as_bytes()));
+				}
+			}
 			same!("into_string", owned.clone().into_string());
 			same!("into_bytes", owned.clone().into_bytes());
 			same!("From<Buf> for owned raw", { let r: $owned_raw = owned.clone().into(); r });
@@ -64,22 +77,95 @@ macro_rules! out_routes {
 			let _ = guard(|| { let _ = v == v; let _ = h2(v); let _ = *owned == *owned; });
 			same!("as_str after ==/hash", v.as_str());
 			same!("Buf::as_str after ==/hash", owned.as_str());
-			// comparison with a plain string is plain text comparison
-			let eq: Option<fn(&$T, &str) -> bool> = $eq;
+			// comparison with a plain string is plain text comparison - EVERY provided route
+			// (str, &str, String, [u8], &[u8], [u8; N], &[u8; N]; borrowed and owned value) must give
+			// the plain-text verdict, in the positive and in the negative direction
+			let eq: Option<fn(&$T, &$TBuf, &str) -> Vec<(&'static str, bool)>> = $eq;
 			if let Some(eq) = eq {
-				ensure!(eq(v, t), "eq-str-own-text", "{n}: value parsed from {:?} != that string", t);
+				for (route, got) in eq(v, &owned, t) {
+					ensure!(got, format!("eq-str-own-text:{route}"), "{n}: value parsed from {:?} != that plain text through `{route}`", t);
+					cx.obs(1);
+				}
 				if let Some(w) = variant {
 					if w != t {
-						ensure!(!eq(v, w), "eq-str-normalises", "{n}: value {:?} == plain string {:?} (plain text comparison expected)", t, w);
+						for (route, got) in eq(v, &owned, w) {
+							ensure!(!got, format!("eq-str-normalises:{route}"), "{n}: value {:?} == plain text {:?} through `{route}` (plain text comparison expected)", t, w);
+						}
 						cx.class("eq-str-against-equivalent-variant");
 					}
 				}
 				let mut longer = t.to_string(); longer.push('x');
-				ensure!(!eq(v, &longer), "eq-str-prefix", "{n}: value {:?} == {:?}", t, longer);
+				for (route, got) in eq(v, &owned, &longer) {
+					ensure!(!got, format!("eq-str-prefix:{route}"), "{n}: value {:?} == {:?} through `{route}`", t, longer);
+				}
+				// sub-slices of the very text the value was parsed from (they share its start address)
+				let cuts: Vec<usize> = t.char_indices().map(|(i, _)| i).collect();
+				for k in [0, 1, cuts.len() / 2, cuts.len().saturating_sub(1)] {
+					if let Some(&i) = cuts.get(k) {
+						let shorter = &t[..i];
+						for (route, got) in eq(v, &owned, shorter) {
+							ensure!(!got, format!("eq-str-truncated:{route}"), "{n}: value {:?} == {:?} (a prefix of its own text, same address) through `{route}`", t, shorter);
+						}
+						// and the other way round: a value parsed in place from the prefix, against the whole text
+						if let Ok(pv) = <$T>::new($to_raw(shorter)) {
+							let po: $TBuf = pv.to_owned();
+							for (route, got) in eq(pv, &po, t) {
+								ensure!(!got, format!("eq-str-extended:{route}"), "{n}: value parsed in place from the prefix {:?} == the whole text {:?} through `{route}`", shorter, t);
+							}
+						}
+					}
+				}
 				cx.obs(3);
 			}
 			Ok(())
 		}
+	};
+}
+
+fn arr<T: ?Sized + PartialEq<[u8; N]> + for<'a> PartialEq<&'a [u8; N]>, const N: usize>(v: &T, b: &[u8]) -> Vec<(&'static str, bool)> {
+	let a: [u8; N] = b.try_into().unwrap();
+	vec![("== [u8; N]", *v == a), ("== &[u8; N]", *v == &a)]
+}
+
+/// `[u8; N]` comparisons for the lengths that can be spelled (N <= 12)
+macro_rules! arrays {
+	($v:expr, $b:expr) => {
+		match $b.len() {
+			0 => arr::<_, 0>($v, $b), 1 => arr::<_, 1>($v, $b), 2 => arr::<_, 2>($v, $b), 3 => arr::<_, 3>($v, $b), 4 => arr::<_, 4>($v, $b),
+			5 => arr::<_, 5>($v, $b), 6 => arr::<_, 6>($v, $b), 7 => arr::<_, 7>($v, $b), 8 => arr::<_, 8>($v, $b), 9 => arr::<_, 9>($v, $b),
+			10 => arr::<_, 10>($v, $b), 11 => arr::<_, 11>($v, $b), 12 => arr::<_, 12>($v, $b),
+			_ => vec![],
+		}
+	};
+}
+
+/// the byte-string family: str, &str, String, [u8], &[u8], arrays - on the borrowed and on the owned value
+macro_rules! eq_bytes {
+	(borrowed) => {
+		Some(|v, _o, s| {
+			let mut r = vec![("== str", *v == *s), ("== &str", *v == s), ("== String", *v == s.to_string()), ("== [u8]", *v == *s.as_bytes()), ("== &[u8]", *v == s.as_bytes())];
+			r.extend(arrays!(v, s.as_bytes()));
+			r
+		})
+	};
+	() => {
+		Some(|v, o, s| {
+			let mut r = vec![("== str", *v == *s), ("== &str", *v == s), ("== String", *v == s.to_string()), ("== [u8]", *v == *s.as_bytes()), ("== &[u8]", *v == s.as_bytes())];
+			r.extend(arrays!(v, s.as_bytes()));
+			r.extend([("owned == str", *o == *s), ("owned == &str", *o == s), ("owned == String", *o == s.to_string()), ("owned == [u8]", *o == *s.as_bytes()), ("owned == &[u8]", *o == s.as_bytes())]);
+			r.extend(arrays!(o, s.as_bytes()).into_iter().map(|(n, b)| (if n == "== [u8; N]" { "owned == [u8; N]" } else { "owned == &[u8; N]" }, b)));
+			r
+		})
+	};
+}
+macro_rules! eq_strs {
+	() => {
+		Some(|v, o, s| vec![("== str", *v == *s), ("== &str", *v == s), ("== String", *v == s.to_string()), ("owned == str", *o == *s), ("owned == &str", *o == s), ("owned == String", *o == s.to_string())])
+	};
+}
+macro_rules! eq_ref_str {
+	() => {
+		Some(|v, _o, s| vec![("== &str", *v == s)])
 	};
 }
 
@@ -90,28 +176,79 @@ fn us(s: &str) -> &str {
 	s
 }
 
-out_routes!(o_uri, iref::Uri, iref::UriBuf, [u8], Vec<u8>, ub, eqstr: Some(|v, s| *v == *s && *v == s && *v == s.to_string() && *v == *s.as_bytes() && *v == s.as_bytes()));
-out_routes!(o_uri_ref, iref::UriRef, iref::UriRefBuf, [u8], Vec<u8>, ub, eqstr: Some(|v, s| *v == *s && *v == s && *v == s.to_string() && *v == *s.as_bytes() && *v == s.as_bytes()));
+out_routes!(o_uri, iref::Uri, iref::UriBuf, [u8], Vec<u8>, ub, eqstr: eq_bytes!());
+out_routes!(o_uri_ref, iref::UriRef, iref::UriRefBuf, [u8], Vec<u8>, ub, eqstr: eq_bytes!());
 out_routes!(o_u_scheme, iref::uri::Scheme, iref::uri::SchemeBuf, [u8], Vec<u8>, ub, eqstr: None);
-out_routes!(o_u_authority, iref::uri::Authority, iref::uri::AuthorityBuf, [u8], Vec<u8>, ub, eqstr: Some(|v, s| *v == s));
-out_routes!(o_u_userinfo, iref::uri::UserInfo, iref::uri::UserInfoBuf, [u8], Vec<u8>, ub, eqstr: Some(|v, s| *v == s));
-out_routes!(o_u_host, iref::uri::Host, iref::uri::HostBuf, [u8], Vec<u8>, ub, eqstr: Some(|v, s| *v == s));
+out_routes!(o_u_authority, iref::uri::Authority, iref::uri::AuthorityBuf, [u8], Vec<u8>, ub, eqstr: eq_ref_str!());
+out_routes!(o_u_userinfo, iref::uri::UserInfo, iref::uri::UserInfoBuf, [u8], Vec<u8>, ub, eqstr: eq_ref_str!());
+out_routes!(o_u_host, iref::uri::Host, iref::uri::HostBuf, [u8], Vec<u8>, ub, eqstr: eq_ref_str!());
 out_routes!(o_u_port, iref::uri::Port, iref::uri::PortBuf, [u8], Vec<u8>, ub, eqstr: None);
-out_routes!(o_u_path, iref::uri::Path, iref::uri::PathBuf, [u8], Vec<u8>, ub, eqstr: Some(|v, s| *v == *s && *v == s && *v == s.to_string() && *v == *s.as_bytes() && *v == s.as_bytes()));
+out_routes!(o_u_path, iref::uri::Path, iref::uri::PathBuf, [u8], Vec<u8>, ub, eqstr: eq_bytes!(borrowed));
 out_routes!(o_u_segment, iref::uri::Segment, iref::uri::SegmentBuf, [u8], Vec<u8>, ub, eqstr: None);
-out_routes!(o_u_query, iref::uri::Query, iref::uri::QueryBuf, [u8], Vec<u8>, ub, eqstr: Some(|v, s| *v == s));
-out_routes!(o_u_fragment, iref::uri::Fragment, iref::uri::FragmentBuf, [u8], Vec<u8>, ub, eqstr: Some(|v, s| *v == s));
-out_routes!(o_iri, iref::Iri, iref::IriBuf, str, String, us, eqstr: Some(|v, s| *v == *s && *v == s && *v == s.to_string()));
-out_routes!(o_iri_ref, iref::IriRef, iref::IriRefBuf, str, String, us, eqstr: Some(|v, s| *v == *s && *v == s && *v == s.to_string()));
-out_routes!(o_i_authority, iref::iri::Authority, iref::iri::AuthorityBuf, str, String, us, eqstr: Some(|v, s| *v == s));
-out_routes!(o_i_userinfo, iref::iri::UserInfo, iref::iri::UserInfoBuf, str, String, us, eqstr: Some(|v, s| *v == s));
-out_routes!(o_i_host, iref::iri::Host, iref::iri::HostBuf, str, String, us, eqstr: Some(|v, s| *v == s));
-out_routes!(o_i_path, iref::iri::Path, iref::iri::PathBuf, str, String, us, eqstr: Some(|v, s| *v == *s && *v == s && *v == s.to_string()));
+out_routes!(o_u_query, iref::uri::Query, iref::uri::QueryBuf, [u8], Vec<u8>, ub, eqstr: eq_ref_str!());
+out_routes!(o_u_fragment, iref::uri::Fragment, iref::uri::FragmentBuf, [u8], Vec<u8>, ub, eqstr: eq_ref_str!());
+out_routes!(o_iri, iref::Iri, iref::IriBuf, str, String, us, eqstr: eq_strs!());
+out_routes!(o_iri_ref, iref::IriRef, iref::IriRefBuf, str, String, us, eqstr: eq_strs!());
+out_routes!(o_i_authority, iref::iri::Authority, iref::iri::AuthorityBuf, str, String, us, eqstr: eq_ref_str!());
+out_routes!(o_i_userinfo, iref::iri::UserInfo, iref::iri::UserInfoBuf, str, String, us, eqstr: eq_ref_str!());
+out_routes!(o_i_host, iref::iri::Host, iref::iri::HostBuf, str, String, us, eqstr: eq_ref_str!());
+out_routes!(o_i_path, iref::iri::Path, iref::iri::PathBuf, str, String, us, eqstr: eq_strs!());
 out_routes!(o_i_segment, iref::iri::Segment, iref::iri::SegmentBuf, str, String, us, eqstr: None);
-out_routes!(o_i_query, iref::iri::Query, iref::iri::QueryBuf, str, String, us, eqstr: Some(|v, s| *v == s));
-out_routes!(o_i_fragment, iref::iri::Fragment, iref::iri::FragmentBuf, str, String, us, eqstr: Some(|v, s| *v == s));
+out_routes!(o_i_query, iref::iri::Query, iref::iri::QueryBuf, str, String, us, eqstr: eq_ref_str!());
+out_routes!(o_i_fragment, iref::iri::Fragment, iref::iri::FragmentBuf, str, String, us, eqstr: eq_ref_str!());
+
+/// AsRef / Borrow views into the library's OTHER types (URI as reference, URI as IRI, ...) keep the text.
+fn cross_views(ty: Ty, t: &str, cx: &mut Ctx) -> Result<(), Failure> {
+	use iref::{Iri, IriBuf, IriRef, Uri, UriBuf, UriRef, UriRefBuf};
+	use std::borrow::Borrow;
+	let mut views: Vec<(&'static str, Vec<u8>)> = vec![];
+	match ty {
+		Ty::Uri => {
+			let v = Uri::new(t.as_bytes()).map_err(|_| Failure::new("harness", "rejected"))?;
+			let o: UriBuf = v.to_owned();
+			views.push(("Uri: AsRef<UriRef>", AsRef::<UriRef>::as_ref(v).as_bytes().to_vec()));
+			views.push(("Uri: AsRef<Iri>", AsRef::<Iri>::as_ref(v).as_bytes().to_vec()));
+			views.push(("Uri: AsRef<IriRef>", AsRef::<IriRef>::as_ref(v).as_bytes().to_vec()));
+			views.push(("Uri: Borrow<UriRef>", Borrow::<UriRef>::borrow(v).as_bytes().to_vec()));
+			views.push(("Uri: Borrow<Iri>", Borrow::<Iri>::borrow(v).as_bytes().to_vec()));
+			views.push(("Uri: Borrow<IriRef>", Borrow::<IriRef>::borrow(v).as_bytes().to_vec()));
+			views.push(("UriBuf: AsRef<UriRef>", AsRef::<UriRef>::as_ref(&o).as_bytes().to_vec()));
+			views.push(("UriBuf: AsRef<Iri>", AsRef::<Iri>::as_ref(&o).as_bytes().to_vec()));
+			views.push(("UriBuf: AsRef<IriRef>", AsRef::<IriRef>::as_ref(&o).as_bytes().to_vec()));
+			views.push(("UriBuf: Borrow<UriRef>", Borrow::<UriRef>::borrow(&o).as_bytes().to_vec()));
+			views.push(("UriBuf: Borrow<Iri>", Borrow::<Iri>::borrow(&o).as_bytes().to_vec()));
+			views.push(("UriBuf: Borrow<IriRef>", Borrow::<IriRef>::borrow(&o).as_bytes().to_vec()));
+			views.push(("Uri: as_uri_ref", v.as_uri_ref().as_bytes().to_vec()));
+			views.push(("Uri: as_iri", v.as_iri().as_bytes().to_vec()));
+			views.push(("Uri: as_iri_ref", v.as_iri_ref().as_bytes().to_vec()));
+		}
+		Ty::UriRef => {
+			let v = UriRef::new(t.as_bytes()).map_err(|_| Failure::new("harness", "rejected"))?;
+			let o: UriRefBuf = v.to_owned();
+			views.push(("UriRef: AsRef<IriRef>", AsRef::<IriRef>::as_ref(v).as_bytes().to_vec()));
+			views.push(("UriRefBuf: AsRef<IriRef>", AsRef::<IriRef>::as_ref(&o).as_bytes().to_vec()));
+			views.push(("UriRef: as_iri_ref", v.as_iri_ref().as_bytes().to_vec()));
+		}
+		Ty::Iri => {
+			let v = Iri::new(t).map_err(|_| Failure::new("harness", "rejected"))?;
+			let o: IriBuf = v.to_owned();
+			views.push(("Iri: AsRef<IriRef>", AsRef::<IriRef>::as_ref(v).as_bytes().to_vec()));
+			views.push(("Iri: Borrow<IriRef>", Borrow::<IriRef>::borrow(v).as_bytes().to_vec()));
+			views.push(("IriBuf: AsRef<IriRef>", AsRef::<IriRef>::as_ref(&o).as_bytes().to_vec()));
+			views.push(("IriBuf: Borrow<IriRef>", Borrow::<IriRef>::borrow(&o).as_bytes().to_vec()));
+			views.push(("Iri: as_iri_ref", v.as_iri_ref().as_bytes().to_vec()));
+		}
+		_ => {}
+	}
+	for (name, got) in views {
+		ensure!(got == t.as_bytes(), format!("out:{name}"), "{name}: {:?} instead of {:?}", String::from_utf8_lossy(&got), t);
+		cx.obs(1);
+	}
+	Ok(())
+}
 
 fn out(ty: Ty, t: &str, variant: Option<&str>, cx: &mut Ctx) -> Result<(), Failure> {
+	cross_views(ty, t, cx)?;
 	match ty {
 		Ty::Uri => o_uri(ty, t, variant, cx),
 		Ty::UriRef => o_uri_ref(ty, t, variant, cx),
